@@ -125,7 +125,7 @@ def make_config(root, sess, parameter_mode=True):
     lab_root = sess['lab_root']
     gv = None
     if root.get('global_vars'):
-        vals = root['global_vars']['values']
+        vals = {k: (str(lab_root) if v == '<LABROOT>' else v) for k, v in root['global_vars']['values'].items()}
         gv = GV(vals) if root['global_vars'].get('kind') == 'object' else dict(vals)
     fp = str(Path(lab_root) / root['file'])
     part = root.get('part')
@@ -134,7 +134,7 @@ def make_config(root, sess, parameter_mode=True):
         fp = fp + '#' + part
     elif part:
         kw['part'] = part
-    return Config(Path(sess['data_dir']), fp if not root.get('file_as_path') or part else Path(fp), global_vars=gv,
+    return Config(Path(root.get('_data_dir') or sess['data_dir']), fp if not root.get('file_as_path') or part else Path(fp), global_vars=gv,
                   context=build_context(root, lab_root), namespace=root.get('namespace'), **kw)
 
 
@@ -184,6 +184,10 @@ def exec_step(step, sess, chains, audit):
         if step.get('member') is not None:
             c = c[step['member']]
         return c
+    if step.get('data_dir_name'):
+        data_dir = str(Path(sess['lab_root']) / step['data_dir_name'])
+        if 'root' in step:
+            step = dict(step, root=dict(step['root'], _data_dir=data_dir))
     if op == 'build':
         cfg = make_config(step['root'], sess)
         chains[cid] = cfg.chain(parameter_mode=step.get('parameter_mode', True))
@@ -212,7 +216,7 @@ def exec_step(step, sess, chains, audit):
             from taskchain import Config
             gv = None
             if root.get('global_vars'):
-                vals = root['global_vars']['values']
+                vals = {k: (str(sess['lab_root']) if v == '<LABROOT>' else v) for k, v in root['global_vars']['values'].items()}
                 gv = GV(vals) if root['global_vars'].get('kind') == 'object' else dict(vals)
             fp = str(Path(sess['lab_root']) / root['file'])
             if root.get('part'):
@@ -246,6 +250,105 @@ def exec_step(step, sess, chains, audit):
         obs['snapshot2_after_poison'] = snapshot(c2.chain(), data_dir)
         c3 = mk()
         obs['snapshot3_after_poison'] = snapshot(c3.chain(), data_dir)
+    elif op == 'helper':
+        # test helpers vs the real chain: same task class, upstream values and parameter values supplied by hand
+        import copy as _copy
+        import tempfile as _tf
+        from taskchain.utils.testing import TestChain, create_test_task
+        from taskchain.utils.clazz import object_to_definition
+        from taskchain.parameter import ParameterObject
+        real_chain = get_chain()
+        real = real_chain.tasks[step['task']]
+        cls = type(real)
+        ts = cls.LAB_SPEC
+        obs['real_vdigest'] = rt.vdigest(real.value) if step.get('compare_real', True) else None
+        n_before = len(rt.STATE['records'])
+        # parameters: by name_in_config; objects as instances or as definitions; defaults spelled out or omitted
+        params, received = {}, {}
+        for p in ts['params']:
+            v = real.params[p['name']]
+            received[p['name']] = v
+            nic = p.get('name_in_config') or p['name']
+            if 'default' in p and v == p['default'] and step.get('omit_defaults'):
+                continue
+            if isinstance(v, ParameterObject) and step.get('objects_as_definitions') and hasattr(v, '_taskchain_instantiate_def'):
+                params[nic] = _copy.deepcopy(v._taskchain_instantiate_def)
+            else:
+                params[nic] = v
+        for drop in step.get('drop_params', []):
+            params.pop(drop, None)
+        # mocks: one per explicit input (class or declared name), real upstream value or an arbitrary one
+        mocks, explicit_values = {}, []
+        arbitrary = step.get('arbitrary_values')
+        mock_classes = []
+        for i, inp in enumerate([x for x in ts['inputs'] if x['form'] not in ('pattern', 'pattern_all')]):
+            key = inp['registry_key'] if inp.get('access') == 'registry' and False else None
+            target = None
+            for k_, t_ in real.input_tasks.items():
+                pass
+            it = real.input_tasks.task_list[i] if i < len(real.input_tasks.task_list) else None
+            from taskchain import Task as _Task
+            if inp.get('in_parameters'):
+                # InputTaskParameters come after Meta.input_tasks in the registry order
+                meta_n = len([x for x in ts['inputs'] if not x.get('in_parameters')])
+                idx = meta_n + [x for x in ts['inputs'] if x.get('in_parameters')].index(inp)
+                it = real.input_tasks.task_list[idx] if idx < len(real.input_tasks.task_list) else None
+            if isinstance(it, _Task):
+                value = it.value if arbitrary is None else arbitrary[i % len(arbitrary)]
+                if arbitrary is not None and value == '__callable__':
+                    value = len
+                if arbitrary is not None and value == '__class__':
+                    value = dict
+                if inp['form'] == 'class':
+                    mk = type(it) if step.get('mock_by_class', True) else type(it).slugname
+                    mock_classes.append(type(it).__name__)
+                else:
+                    # name a mock so that both the declared reference and the name the run body uses resolve to it: namespace part of the
+                    # declared reference + group-qualified name of the mocked task
+                    ns_part = '::'.join(inp['ref'].split('::')[:-1])
+                    mk = (ns_part + '::' if ns_part else '') + type(it).slugname
+                    mock_classes.append(type(it).__name__)
+                if step.get('skip_mock') == i:
+                    explicit_values.append(inp.get('default'))     # a missing optional input falls back to its default
+                    continue
+                mocks[mk] = value
+                explicit_values.append(value)
+            else:
+                explicit_values.append(it)     # absent optional input: default
+        base = Path(_tf.mkdtemp(prefix='helper-', dir=sess['lab_root'])) if step.get('explicit_base_dir') else None
+        obs['mock_classes'] = mock_classes
+        try:
+            if step.get('use_test_chain'):
+                tc = TestChain([cls], mock_tasks=mocks, parameters=params, base_dir=base)
+                helper = tc[cls.fullname(tc.config)]
+            else:
+                helper = create_test_task(cls, input_tasks=mocks, parameters=params, base_dir=base)
+            obs['constructed'] = True
+        except Exception as e:
+            obs['constructed'] = False
+            obs['construct_exc'] = f'{type(e).__name__}: {e}'[:300]
+            helper = None
+        if helper is not None:
+            try:
+                hv = helper.value
+                obs['helper_vdigest'] = rt.vdigest(hv)
+                obs['expected_vdigest'] = rt.expected_vdigest_for(cls, received, explicit_values)
+            except Exception as e:
+                obs['helper_exc'] = f'{type(e).__name__}: {e}'[:300]
+            obs['helper_base'] = str(helper.get_config().base_dir)
+            obs['helper_files'] = sorted(str(p.relative_to(helper.get_config().base_dir)) for p in Path(helper.get_config().base_dir).rglob('*') if p.is_file()) \
+                if Path(helper.get_config().base_dir).exists() else []
+        obs['helper_runs'] = rt.STATE['records'][n_before:]
+    elif op == 'migrate':
+        import contextlib
+        import io
+        from taskchain.utils.migration import migrate_to_parameter_mode
+        cfg = make_config(step['root'], sess)
+        target = Path(sess['lab_root']) / step['target_name']
+        buf = io.StringIO()
+        with contextlib.redirect_stdout(buf):
+            migrate_to_parameter_mode(cfg, target, dry=step.get('dry', True), verbose=step.get('verbose', False))
+        obs['printed_lines'] = len(buf.getvalue().splitlines())
     elif op == 'snapshot':
         obs['snapshot'] = snapshot(get_chain(), data_dir, light=step.get('light', False))
     elif op == 'value':
